@@ -37,7 +37,7 @@ def run_one(prop, mutation=None, patch=None, tier="quick", seed="1"):
             r = subprocess.run(["patch", "-p1", "-d", str(tmp), "-i", str(Path(patch).resolve())], capture_output=True, text=True)
             if r.returncode != 0:
                 return "STALE", r.stdout + r.stderr, 0
-        env = dict(os.environ, LERAX_SRC=str(tmp / "src"), VERIF_SEED=seed)
+        env = dict(os.environ, LERAX_SRC=str(tmp / "src"), VERIF_SEED=seed, VERIF_EVIDENCE_DIR=str(tmp / "evidence"), VERIF_REPLAY_DIR=str(tmp / "replays"))
         t0 = time.time()
         r = subprocess.run([str(VERIF / "check"), prop, "--tier", tier], capture_output=True, text=True, env=env)
         dt = time.time() - t0
